@@ -1198,16 +1198,16 @@ impl<const M: usize> Sim<M> {
     /// Requests whose total size is unrepresentable or far above anything the (capped) global
     /// allocator will honour.  Ok is only acceptable if the claimed extent is really held.
     pub fn op_huge(&mut self, rep: &mut Report, which: u8, n: usize, fallible: bool) -> Outcome {
-        let name = ["alloc_layout", "slice_fill_with<u64>", "slice_fill_copy<u8>", "slice_fill_default<[u8;3]>", "slice_fill_clone<u32>", "slice_copy<()>", "with_capacity", "slice_fill_iter<u64>"][which as usize % 8];
+        let name = ["alloc_layout", "slice_fill_with<u64>", "slice_fill_copy<u8>", "slice_fill_default<[u8;3]>", "slice_fill_clone<u32>", "slice_copy<()>", "with_capacity", "slice_fill_iter<u64>", "slice_try_fill_with<u64>", "slice_try_fill_iter<u64>"][which as usize % 10];
         self.cur = format!("huge:{}{}(n={:#x})", if fallible { "try_" } else { "" }, name, n);
-        if which % 8 == 6 {
+        if which % 10 == 6 {
             let ok = self.reconstruct(rep, Some(n), fallible);
             if ok && n > (64 << 20) && self.bump.chunk_capacity() < n {
                 rep.violate("C19", "C19/constructor-accepted-impossible-capacity", format!("capacity {:#x} got {}", n, self.bump.chunk_capacity()));
             }
             return if ok { Outcome::Ok } else if fallible { Outcome::Err } else { Outcome::Panic };
         }
-        if which % 8 == 0 && Layout::from_size_align(n, 8).is_err() {
+        if which % 10 == 0 && Layout::from_size_align(n, 8).is_err() {
             // not a request at all: Layout itself refuses the size
             return Outcome::Err;
         }
@@ -1217,7 +1217,7 @@ impl<const M: usize> Sim<M> {
         let b: &Bump<M> = &**self.bump;
         // returns (ptr, claimed bytes, elem align)
         let r = catch_unwind(AssertUnwindSafe(|| -> Option<(usize, usize, usize)> {
-            match (which % 8, fallible) {
+            match (which % 10, fallible) {
                 (0, f) => {
                     let l = Layout::from_size_align(n, 8).ok()?;
                     if f {
@@ -1243,12 +1243,15 @@ impl<const M: usize> Sim<M> {
                         Some((s.as_ptr() as usize, if s.len() == n { 0 } else { usize::MAX }, 1))
                     }
                 }
-                (_, false) => Some((b.alloc_slice_fill_iter((0..n).map(|i| i as u64)).as_ptr() as usize, n.wrapping_mul(8), 8)),
-                (_, true) => b.try_alloc_slice_fill_iter((0..n).map(|i| i as u64)).ok().map(|s| (s.as_ptr() as usize, s.len().wrapping_mul(8), 8)),
+                (7, false) => Some((b.alloc_slice_fill_iter((0..n).map(|i| i as u64)).as_ptr() as usize, n.wrapping_mul(8), 8)),
+                (7, true) => b.try_alloc_slice_fill_iter((0..n).map(|i| i as u64)).ok().map(|s| (s.as_ptr() as usize, s.len().wrapping_mul(8), 8)),
+                // the Result-returning fills exist only in the infallible family: both flavours call them
+                (8, _) => b.alloc_slice_try_fill_with(n, |i| Ok::<u64, ()>(i as u64)).ok().map(|s| (s.as_ptr() as usize, s.len().wrapping_mul(8), 8)),
+                (_, _) => b.alloc_slice_try_fill_iter((0..n).map(|i| Ok::<u64, ()>(i as u64))).ok().map(|s| (s.as_ptr() as usize, s.len().wrapping_mul(8), 8)),
             }
         }));
         let ev = self.end(rep, OpKind::Alloc);
-        let elem = [1usize, 8, 1, 3, 4, 0, 1, 8][which as usize % 8];
+        let elem = [1usize, 8, 1, 3, 4, 0, 1, 8, 8, 8][which as usize % 10];
         let true_size = (n as u128) * (elem as u128);
         let out = match r {
             Ok(Some((p, claimed, _al))) => {
